@@ -9,6 +9,8 @@
 #define ALN_PROFILEPROFILE_IMPORT
 #include "aln_profileprofile.h"
 
+#include "kalign_verif.h"
+
 #define MAX(a, b) (a > b ? a : b)
 #define MAX3(a,b,c) MAX(MAX(a,b),c)
 
@@ -145,6 +147,7 @@ int aln_profileprofile_foward(struct aln_mem* m)
 
         }
         //prof1 -=  (m->enda) << 6;
+        KV_HOOK(if(m->kv_par) kv_hfwd(m));
         return OK;
 }
 
@@ -281,12 +284,14 @@ int aln_profileprofile_backward(struct aln_mem* m)
 
                 //pa = ca;
         }
+        KV_HOOK(if(m->kv_par) kv_hbwd(m));
         return OK;
 }
 
 
 int aln_profileprofile_meetup(struct aln_mem* m,int old_cor[], int* meet,int* t,float* score)
 {
+        KV_HOOK(if(m->kv_par) kv_hmeet(m, old_cor));
         struct states* f = m->f;
         struct states* b = m->b;
         int i;
